@@ -436,6 +436,15 @@ namespace Pistache::Http::Experimental
                 auto timerIt = timeouts.find(fd);
                 if (timerIt != std::end(timeouts))
                 {
+                    // The event can be stale: the timer expired, but the response
+                    // was handled first (same poll result) and the timer has been
+                    // disarmed, or already armed again for the next request of the
+                    // connection. Only a timer that really is expired reads a
+                    // count; anything else must not time out the current request.
+                    uint64_t expirations = 0;
+                    if (::read(fd, &expirations, sizeof expirations) != static_cast<ssize_t>(sizeof expirations))
+                        return;
+
                     connection = timerIt->second.lock();
                     if (connection)
                         timeouts.erase(timerIt);
